@@ -29,6 +29,17 @@ CLAIMS = {
         "SPEC-generated exchanges and mutations on the real code."),
   note=TB + "encoding_rs (windows-1252, UTF-16LE without BOM handling) mirrored by Gd.cp1252Decode / unitsOf; the stray-0x01 ambiguity of UCS-2 strings is excluded by the SPEC's domain.",
   technique="Lean 4 proof (string codec ∀ lengths/encodings; list induction over datagrams) + exhaustive length-byte sweep and SPEC differential"),
+ "C07": dict(
+  category="proof",
+  text=("Lean 4 theorems, one file per format (families built by sub-agents, merged and re-checked here): Just Cause 2: Multiplayer (C07_jc2m: GameSpy 3 carrier, "
+        "reported-vs-listed player count), Mindustry (C07_mindustry: whole query = SPEC for every reply, optional trailing mode name), Savage 2 (C07_savage2, header "
+        "and trailing bytes irrelevant), Frontlines: Fuel of War (C07_ffow, big-endian port / time left), The Ship (C07_theship: whole query on one-datagram replies, "
+        "conversion errors are PacketBad), Battalion 1944 (C07_battalion_overrides: closed form of which bat_* rule overrides which field and what is removed; "
+        "C07_battalion_query) and Eco (C07_eco_fields: the 37 field equations, C07_eco_nothing_fabricated: the map is injective). Tie + oracle: SPEC-generated replies "
+        "over full numeric ranges, empty/long strings, optional trailing fields, 0-100 players on the real code; Eco through the real serde_json::from_reader and, for a "
+        "share of the cases, the real HTTP client over loopback (IPv4 and IPv6)."),
+  note=TB + "ureq/url/serde_json are parameters (Eco); the whole-query theorems of The Ship and Battalion 1944 cover unsplit, unchallenged exchanges, the remaining transports are covered by the tie and by C02/C08/C09. Recorded finding: Savage 2 text is decoded as strict UTF-8 (reference: Latin-1).",
+  technique="Lean 4 proof (decode∘encode per format; override table in closed form; injectivity of the Eco field map) + SPEC-driven differential incl. real HTTP"),
  "C19": dict(
   category="other",
   text=("PARTIAL by nature. Proved in Lean 4 for EVERY JSON value (mutual induction over values, arrays and objects): the XML converter only emits element "
